@@ -26,6 +26,8 @@ def symbolic_comprehension(I, node, gen, seq, env):
         raise OutOfReach("async comprehension", node)
     from .interp import Env
     n = seq.length if isinstance(seq, SList) else seq.region.length
+    if not gen.ifs:
+        return map_comprehension(I, node, gen, seq, env)
     j = I.fresh("cj", z3.IntSort())
     cenv = Env(parent=env)
     I.assign(gen.target, I.seq_at(seq, j), cenv)
@@ -56,3 +58,24 @@ def symbolic_comprehension(I, node, gen, seq, env):
     out.filter_of = (seq, j, p)
     I.used_engine_lemmas = getattr(I, "used_engine_lemmas", set()) | {"filter-length"}
     return out
+
+
+def map_comprehension(I, node, gen, seq, env):
+    """[elt for target in seq] without filter: the element expression is
+    evaluated once at a generic index (term-building mode, no forking, no
+    side effects) -- list equality on such values is extensional."""
+    from .interp import Env
+    j = I.fresh("mj", z3.IntSort())
+    cenv = Env(parent=env)
+    I.assign(gen.target, I.seq_at(seq, j), cenv)
+    I.spec_mode += 1
+    I.write_log_push()
+    n = seq.length if isinstance(seq, SList) else seq.region.length
+    try:
+        v = I.ev(node.elt, cenv)
+    finally:
+        I.spec_mode -= 1
+        wl = I.write_log_pop()
+    if wl:
+        raise OutOfReach("comprehension element with side effects", node)
+    return MapSeq(seq, j, v)
